@@ -376,4 +376,80 @@ def k6(ctx, kr):
     kr.exhaustive = True
     kr.outside = ['faults that a companion may legitimately cure (undeclared type / enumeration / instance / task); more than one companion; hash order of the project map (K1)']
 
-KERNELS = [k1, k3, k4, k5, k6]
+
+# ---------------------------------------------------------------------------------------------- K2 a lexical error anywhere makes parse_program fail
+def _k2_job(job):
+    where, nb = job
+    from . import C10 as K10, lexcommon as LC
+    from mirsym import lexlift
+    ctx = _CTX; part = Part()
+    P = ctx.program()
+    pre, post = {'in_declarations': ('PROGRAM p\nVAR\n  x : INT;\n', '\nEND_VAR\n  x := 1;\nEND_PROGRAM\n'), 'in_body': ('PROGRAM p\nVAR\n  x : INT;\nEND_VAR\n  x := 1;', '\nEND_PROGRAM\n'),
+                 'after_the_program': ('PROGRAM p\nVAR\n  x : INT;\nEND_VAR\n  x := 1;\nEND_PROGRAM\n', '\n')}[where]
+    k_parse = P.find_fn('ironplc-parser', 'parse_program')
+    k_opt = [k for k in P.items if k[0] == 'ironplc-parser' and re.search(r'ParseOptions as (std::default::)?Default>::default|options::<impl at [^>]*>::default', k[1])]
+    holder = {}; st = {}
+    M = Machine(P, stubs=K10.dyn_lexer_stubs(ctx, holder), max_steps=400_000_000)
+    LM = LC.lexmodel(ctx)
+    u = [z3.BitVec('u%d' % i, 8) for i in range(nb)]
+    valid, _ = LC.utf8_valid(u)
+    allb = list(pre.encode()) + u + list(post.encode()); N = len(allb)
+    # the lexer of the same tree, lifted on the same text: is some token of the stream an error token?
+    L = lexlift.Lift(LM, allb); toks = L.lex_all()
+    reach = LC.stream(toks, N)
+    has_err = z3.Or([z3.And(reach[e], toks[e][0] == lexlift.ERR) for e in range(N)])
+    M.base_constraints = [valid]
+    def entry(M):
+        fid = Ref(Cell(Agg('FileId', [Str('f.st')])))
+        opts = Ref(Cell(M.call_fn(k_opt[0], []) if k_opt else Agg('ParseOptions', [False])))
+        return M.call_fn(k_parse, [Ref(Cell(Str(list(allb)))), fid, opts])
+    def on_path(M, pr):
+        part.paths += 1
+        if pr.inconclusive: part.inconc('%s: %s' % (where, pr.inconclusive)); return
+        part.nontrivial += 1
+        s = z3.Solver(); s.add(valid, *pr.pc)
+        def wit(role, what, cond):
+            s.push(); s.add(cond); part.queries += 1
+            if s.check() == z3.sat:
+                m = s.model(); data = bytes(x if isinstance(x, int) else m.eval(x, True).as_long() for x in allb)
+                part.add(role, '%s (text %r)' % (what, data.decode('utf-8', 'replace')[len(pre) - 8:len(pre) + nb + 8]), {'source': data.decode('utf-8', 'replace')}, ('lexical_error_fails', (data.decode('utf-8', 'replace'),)))
+            s.pop()
+        if pr.panic: wit('C03/K2/%s/panic' % where, 'parse_program panics: ' + pr.panic.msg[:50], z3.BoolVal(True)); return
+        if pr.result.disc == 0: wit('C03/K2/%s/lexical-error-accepted' % where, 'the text holds a character sequence that is no token, yet parse_program returns a library', has_err)
+        elif len(part.validate) < 1:
+            s.push(); s.add(has_err)
+            if s.check() == z3.sat:
+                m = s.model(); part.validate.append(('lexical_error_fails', (bytes(x if isinstance(x, int) else m.eval(x, True).as_long() for x in allb).decode('utf-8', 'replace'),)))
+            s.pop()
+        if len(part.samples) < 1: part.samples.append({'where': where, 'bytes': nb, 'result': 'Ok' if pr.result.disc == 0 else 'Err'})
+    M.explore(entry, on_path, max_paths=6000)
+    part.queries += M.stats['smt']; part.encoded = set(M.encoded); part.models = set(M.models_used)
+    return part
+
+@replay_factory('lexical_error_fails')
+def _replay_lexical_error_fails(src):
+    def rp(ctx):
+        t = ctx.replay({'cmd': 'tokenize', 'source': src})
+        if 'panic' in t: return True, t
+        if not t['diagnostics']: return None, {'note': 'the real lexer reports no error for this text', 'source': src[-80:]}
+        r = ctx.replay({'cmd': 'check', 'sources': [src]})
+        if 'panic' in r: return True, r
+        return bool(r.get('ok')), {'source': src[-120:], 'lexical_diagnostics': len(t['diagnostics']), 'check_ok': r.get('ok'), 'codes': [d['code'] for d in r.get('diagnostics', [])]}
+    return rp
+
+@kernel('K2 parser.lexical_error_fails_the_file')
+def k2(ctx, kr):
+    global _CTX
+    _CTX = ctx
+    NB = (1, 2) if ctx.tier == 'quick' else (1, 2, 3)
+    kr.bounds = ('a valid program with %s [quick: two bytes only after the program] symbolic bytes of valid UTF-8 inserted in the declarations, in the body or after the program: whenever the lexer of the same tree (lifted from its MIR) yields an error token for the text, '
+                 'parse_program (preprocess, tokenize, terminator insertion, peg parser; from the MIR) returns Err' % (list(NB),))
+    jobs = [(w, nb) for w in ('in_declarations', 'in_body', 'after_the_program') for nb in NB]
+    if ctx.tier == 'quick': jobs = [(w, 1) for w in ('in_declarations', 'in_body', 'after_the_program')] + [('after_the_program', 2)]
+    for part in par_map(_k2_job, jobs): merge_part(kr, part)
+    P = ctx.program()
+    kr.functions = fn_paths(P, getattr(kr, '_enc', set()))[:100] + ['ironplc-parser::<TokenType as Logos>::lex (lifted)']
+    kr.exhaustive = True
+    kr.outside = ['longer insertions; several errors in one file']
+
+KERNELS = [k1, k3, k4, k5, k6, k2]
